@@ -80,11 +80,13 @@ add("C06", "model_checking",
     "the solver, with a second system to which the same change list is really applied; pairing of values_to_recompute/"
     "recomputed_values and twins, absence of earlier hours for interior dates, completeness of the recomputed set, and "
     "rejection of dates outside the period / naive dates.",
-    "Equality clause only for the first modelled hour (as stated); shared-job skeletons excluded (known finding R1).")
+    "Equality clause only for the first modelled hour (as stated); shared-job skeletons excluded (known finding R1). For "
+    "updates carrying several structural changes the reference is the model built from scratch with the mirrored spec "
+    "(objects that the changes take out of the system are outside that comparison).")
 add("C09", "model_checking",
     "Symbolic execution of the operator methods of ExplainableQuantity / ExplainableHourlyQuantities / "
     "EmptyExplainableObject themselves (no system): symbolic magnitudes and cells over a menu of units and index "
-    "shapes; z3 decides the result against a per-time-stamp base-unit oracle, dimension algebra, unchanged operands, "
+    "shapes (equal, shifted, disjoint, longer, tz-aware, same start and length with an hour missing); z3 decides the result against a per-time-stamp base-unit oracle, dimension algebra, unchanged operands, "
     "commutativity, additivity of sums, and the contracts of sum/max/abs/ceil/round/neg/shift/element-wise max-min.",
     "Unsupported operand combinations may raise; hourly subtraction only on equal indexes.")
 
@@ -153,7 +155,8 @@ add("C20", "model_checking",
     "Symbolic execution of time_builders with symbolic values, volumes, hours and active days (integer proxies forked "
     "over 0..23 / 0..6 / 1..31 / 1..366) on concrete start dates and spans; z3 decides every cell against a pandas-free "
     "datetime oracle (Ite over the symbolic hour/day sets), length, contiguity and unit are compared concretely.",
-    "Start dates/spans enumerated; linear/sinusoidal/daily fluctuation helpers: time line only (numpy kernels).")
+    "Start dates/spans (hours, days, weeks, years, minutes) enumerated; linear/sinusoidal/daily fluctuation and random "
+    "helpers: time line by obligations, values compared concretely with a closed form (numpy kernels are outside the encoding).")
 
 NA_REASONS = {}
 
